@@ -78,6 +78,10 @@ def build_tree(rng, style, flavour="any", inner_size=None, outer_size=None, dept
         X, Y, Z = (coord(g, rng, node, w, ax, flavour) for ax in range(3))
         node = g._emit(("remap", node, X, Y, Z))
         chain.append((X, Y, Z))
+        # staged chains: materialise the remap (flatten / optimized turn the oracle into a TransformedOracleClause)
+        # before the next one is applied, so that TransformedOracleClause::remap composes the two maps itself
+        if rng.random() < 0.35:
+            node = g._emit((rng.choice(["flat", "opt"]), node))
     g.pool += [node, node, w]
     g.o["size"] = outer_size if outer_size is not None else rng.randint(1, 8)
     if flavour == "any" and rng.random() < 0.4:
@@ -536,6 +540,7 @@ class Judge:
 KNOWN_KEYS = {
     "var": "C16:transformed-oracle-ignores-free-variables",
     "nan": "C16:transformed-interval-drops-nan",
+    "featempty": "C16:transformed-features-empty-at-tie",
 }
 
 
@@ -616,6 +621,8 @@ def run(rep, tier, seed, replay=None):
             # the judge only files this when the *plain* tree's interval is flagged and the oracle tree's is not:
             # the wrapped evaluator flags like the plain one, so the flag was lost in TransformedOracle::evalInterval
             fkey = KNOWN_KEYS["nan"]
+        if key == "features-empty":
+            fkey = KNOWN_KEYS["featempty"]
         reported.add(case)
         rep.violation("oracle tree and plain tree disagree (%s, %s case): %s" % (key, kind, whats[0][:400]),
                       {"kind": "oracle", "check": key, "case": case, "generator": kind, "program": in_cases.get(case),
